@@ -16,7 +16,7 @@ def cfg_with(**kw):
 
 SEP_CONFIGS = [(",", "."), (".", ","), (".", ""), (",", "")]
 
-POOL_WORDS = ["zorp", "blip", "quux", "frob", "glorp", "snarf", "wibble", "foo", "bar", "baz", "qux"]
+POOL_WORDS = ["zorp", "blip", "quux", "frob", "glorp", "snarf", "wibble", "foo", "bar", "baz", "qux", "ga", "bu", "meu", "zorps", "blips"]
 
 
 def all_config_words(include_zones=True):
